@@ -131,9 +131,16 @@ def ref_literal(s):
     return None
 
 
+# earlier constants the expressions may refer to: enumerators (type int in C), declared before the expression
+KENV = {"K7": 7, "K0": 0, "KM": -3, "KB": 2147483647}
+KDECL = "enum k_ { %s };" % ", ".join("%s = %d" % kv for kv in KENV.items())
+
+
 def ref_eval(e):
     """-> None | (type, value, exact_flag)"""
     k = e[0]
+    if k == "i":
+        return ((0, True), KENV[e[1]], True)
     if k == "c":
         r = ref_literal(e[1])
         return None if r is None else (r[0], r[1], True)
@@ -210,6 +217,8 @@ def gen_literal(rng):
 def gen_expr(rng, depth):
     k = rng.random()
     if depth <= 0 or k < 0.28:
+        if rng.random() < 0.07:
+            return ["i", rng.choice(sorted(KENV))]
         return ["c", gen_literal(rng)]
     if k < 0.42:
         return ["u", rng.choice(["-", "-", "+"]), gen_expr(rng, depth - 1)]
@@ -229,6 +238,8 @@ class TooBig(Exception):
 def math_eval(e):
     """what an evaluator on mathematical integers computes (None: it raises); TooBig if a left-shift count
     exceeds 128 -- such trees are not generated (cffi would build astronomically large integers)"""
+    if e[0] == "i":
+        return KENV[e[1]]
     if e[0] == "c":
         r = ref_literal(e[1])
         if r is not None:
@@ -263,7 +274,7 @@ def math_eval(e):
 
 
 def c_text(e):
-    if e[0] == "c":
+    if e[0] in "ci":
         return e[1]
     if e[0] == "u":
         return "(%s %s)" % (e[1], c_text(e[2]))      # blank: never "--" or "++"
@@ -271,6 +282,8 @@ def c_text(e):
 
 
 def coq_expr(e):
+    if e[0] == "i":
+        return "(Id %s)" % cstr(e[1])
     if e[0] == "c":
         return "(Const %s)" % cstr(e[1])
     if e[0] == "u":
@@ -279,7 +292,7 @@ def coq_expr(e):
 
 
 def depth_of(e):
-    return 0 if e[0] == "c" else 1 + max(depth_of(x) for x in e[2:])
+    return 0 if e[0] in "ci" else 1 + max(depth_of(x) for x in e[2:])
 
 
 def is_literal_like(e):
@@ -287,7 +300,9 @@ def is_literal_like(e):
     return e[0] == "c" and not e[1].startswith("'")
 
 
-WITNESSES = [   # corpus: fixed defects (must stay fixed) and the witnesses of the open finding
+WITNESSES = [
+    ["b", "-", ["b", "<<", ["i", "K7"], ["c", "2"]], ["c", "'a'"]], ["b", "/", ["i", "KM"], ["c", "2"]],
+    ["b", "+", ["i", "KB"], ["c", "1u"]],   # corpus: fixed defects (must stay fixed) and the witnesses of the open finding
     ["c", "'\\n'"], ["c", "'\\0'"], ["c", "'\\\\'"], ["c", "'a'"],
     ["b", "-", ["c", "0u"], ["c", "1"]],
     ["b", "+", ["c", "0xFFFFFFFF"], ["c", "1"]],
@@ -327,6 +342,7 @@ def finding_key(case):
 GCC_HEAD = r'''#include <stdio.h>
 #define TID(e) _Generic((e), int:0, unsigned:1, long:2, unsigned long:3, long long:4, unsigned long long:5, default:9)
 #define EMIT(i, e) do { __typeof__(e) v_ = (e); printf("%d %d %llu\n", i, TID(e), (unsigned long long)v_); } while (0)
+enum k_ { K7 = 7, K0 = 0, KM = -3, KB = 2147483647 };
 int main(void) {
 '''
 
@@ -408,7 +424,7 @@ def evaluate(ctx, cases):
                                # API mode: the C compiler cross-checks; only where C is defined, exact and int-sized
                                api_ok=(refs[i] is not None and refs[i][2] and i not in rejected
                                        and -2 ** 31 <= refs[i][1] < 2 ** 31))
-                          for i, c in enumerate(cases)], api=ctx.thorough)
+                          for i, c in enumerate(cases)], api=ctx.thorough, prefix=KDECL)
     out, p = s.run_worker("c09_worker.py", payload, timeout=3000)
     if out is None:
         ctx.violation(cases[0], "worker failed: " + (p.stderr[-1500:] or p.stdout[-500:]))
@@ -439,7 +455,7 @@ def evaluate(ctx, cases):
             continue
         cval = gcc[i][2]
         if isinstance(pv, int):
-            if depth_of(c["e"]) > 0 or not c["e"][1].isdigit():
+            if depth_of(c["e"]) > 0 or not c["e"][1].isdigit():   # (identifiers count as non-trivial)
                 ctx.nontrivial(("expr", c_text(c["e"])))
             if pv != cval:
                 ctx.violation(c, "%s: cffi evaluates to %d, gcc to %d (type %s%s)" % (
@@ -456,22 +472,23 @@ def evaluate(ctx, cases):
             bowner.append(i)
     eq_spec, eq_model = "opt_eqb (pair_eqb Z.eqb (pair_eqb Bool.eqb Z.eqb))", "pair_eqb Z.eqb Z.eqb"
     imports = ["C09.Prim", "C09.Gen", "C09.Spec", "C09.Model"]
-    bad, outs, err = vlib.coq_mismatches(imports, "(fun e => (c_eval_out e, py_eval_out e))",
-                                         "pair_eqb (%s) (%s)" % (eq_spec, eq_model), both, shard=500,
-                                         prelude="Open Scope string_scope.\n")
+    kenv = "[" + "; ".join("(%s, %s)" % (cstr(k), cz(v)) for k, v in KENV.items()) + "]"
+    PRE = ("Open Scope string_scope.\nDefinition kenv : list (text * Z) := %s.\n"
+           "Definition kcenv := map (fun p : text * Z => (fst p, (mk_cty RInt true, snd p))) kenv.\n"
+           "Definition spec_out e := c_eval_out_env kcenv e.\nDefinition model_out e := res_out (py_eval kenv e).\n" % kenv)
+    bad, outs, err = vlib.coq_mismatches(imports, "(fun e => (spec_out e, model_out e))",
+                                         "pair_eqb (%s) (%s)" % (eq_spec, eq_model), both, shard=500, prelude=PRE)
     if err:
         ctx.obligation_broken("C09 model/spec evaluation", err)
     if bad:       # attribute each disagreement to the specification or to the model
         sub = [bowner[k] for k in bad]
         inp = {i: mpairs[mowner.index(i)] for i in sub}
-        b1, o1, _ = vlib.coq_mismatches(imports, "c_eval_out", eq_spec, [(inp[i][0], spec_exp[i]) for i in sub],
-                                        prelude="Open Scope string_scope.\n")
+        b1, o1, _ = vlib.coq_mismatches(imports, "spec_out", eq_spec, [(inp[i][0], spec_exp[i]) for i in sub], prelude=PRE)
         for k in b1:
             c = cases[sub[k]]
             ctx.mismatch(c, "Spec.c_eval = %s, gcc/reference = %s for %s" % (o1.get(k), spec_exp[sub[k]], c_text(c["e"])),
                          "C09.Spec.c_eval vs gcc")
-        b2, o2, _ = vlib.coq_mismatches(imports, "py_eval_out", eq_model, [inp[i] for i in sub],
-                                        prelude="Open Scope string_scope.\n")
+        b2, o2, _ = vlib.coq_mismatches(imports, "model_out", eq_model, [inp[i] for i in sub], prelude=PRE)
         for k in b2:
             c = cases[sub[k]]
             ctx.mismatch(c, "model py_eval = %s, cffi's parser gives %r for %s" % (
